@@ -397,6 +397,35 @@ func casIsMonotone(p *Prog, r *Roles, ck *compactKeyRole, c ssa.CallInstruction)
 				return true
 			}
 		}
+		// a helper with several returns of that value: each return that is feasible under what is known at the write
+		// (the conditions that guard it inside its own helper, in terms of the actuals) implies the guard
+		if sites, subst := helperReturnSiteFacts(cf); len(sites) > 1 {
+			feasible, all := 0, true
+			for _, fs := range sites {
+				contradicts, implies := false, false
+				for _, h := range fs {
+					if h.Raw != nil {
+						k, w := canonCondKey(h.Raw, h.Want, []map[ssa.Value]ssa.Value{subst})
+						if ew, ok := extra[k]; ok && ew != w {
+							contradicts = true
+						}
+					}
+					if h.X != nil && guardNotGreater(h, oldVal, newRev, subst) {
+						implies = true
+					}
+				}
+				if contradicts {
+					continue
+				}
+				feasible++
+				if !implies {
+					all = false
+				}
+			}
+			if feasible > 0 && all {
+				return true
+			}
+		}
 		return false
 	}, extra)
 	if ok {
